@@ -107,6 +107,50 @@ def main(argv=None):
     sys.exit(rc)
 
 
+class Ob(object):
+    """obligation record returned by a verification worker (the z3 terms stay in the worker)"""
+
+    def __init__(self, d):
+        self.__dict__.update(d)
+
+    def smt2(self, relaxed=False):
+        return self.smt2_text or '(omitted: proved obligations are not shipped back)'
+
+
+def verify_worker(job):
+    """Generate and discharge the obligations of ONE contract (own process: real source re-read, fresh z3 context)."""
+    name, tier = job
+    from pyvc.run import build
+    from pyvc.solve import solve_all
+    from pyvc.engine import Unsupported
+    v = build()
+    c = v.reg.contracts[name]
+    out = {'name': name, 'obligations': [], 'unsupported': None, 'sha': '', 'kind': 'lemma' if c.lemma else 'function'}
+    try:
+        v.verify(c)
+        fi = v.db.function(c.target)
+        out['sha'] = fi.sha if fi else ''
+    except Unsupported as ex:
+        out['unsupported'] = str(ex)
+        return out
+    except RecursionError:
+        out['unsupported'] = 'recursion limit in symbolic execution'
+        return out
+    if tier == 'quick':
+        solve_all(v.obligations, z3_timeout_ms=10000, cvc5_timeout_ms=20000, both=False, procs=1)
+    else:
+        solve_all(v.obligations, z3_timeout_ms=60000, cvc5_timeout_ms=60000, both=True, procs=1)
+    for o in v.obligations:
+        keep = o.verdict != 'proved'
+        out['obligations'].append({'oid': o.oid, 'kind': o.kind, 'func': o.func, 'note': o.note, 'verdict': o.verdict,
+                                   'backend': o.backend, 'time': o.time, 'reason': o.reason, 'model': o.model,
+                                   'candidate': getattr(o, 'candidate', False), 'expect_sat': o.expect_sat,
+                                   'sha': getattr(o, 'sha', ''), 'agree': getattr(o, 'agree', None),
+                                   'goal': (o.note or str(o.goal))[:300],
+                                   'smt2_text': (o.smt2() if keep else None)})
+    return out
+
+
 def run_check(prop, args, seed, t_start):
     from pyvc.run import build
     from pyvc.solve import solve_all
@@ -128,29 +172,26 @@ def run_check(prop, args, seed, t_start):
     # ---- 1. generate obligations from the current tree --------------------------------------
     unsupported = []
     funcs = []
-    for c in contracts:
-        n0 = len(v.obligations)
-        try:
-            v.verify(c)
-            fi = v.db.function(c.target)
-            funcs.append({'name': c.name, 'sha256': fi.sha if fi else '', 'obligations': len(v.obligations) - n0,
-                          'kind': 'lemma' if c.lemma else 'function'})
-        except Unsupported as ex:
-            del v.obligations[n0:]
-            unsupported.append({'contract': c.name, 'reason': str(ex)})
-        except RecursionError:
-            del v.obligations[n0:]
-            unsupported.append({'contract': c.name, 'reason': 'recursion limit in symbolic execution'})
+    assumed = [c.name for c in contracts if c.trusted]
+    todo = [c for c in contracts if not c.trusted]
+    import multiprocessing
+    obs = []
+    if todo:
+        mp = multiprocessing.get_context('fork')
+        with mp.Pool(min(16, len(todo))) as pool:
+            results = pool.map(verify_worker, [(c.name, tier) for c in todo], chunksize=1)
+        for r in results:
+            if r['unsupported'] is not None:
+                unsupported.append({'contract': r['name'], 'reason': r['unsupported']})
+                continue
+            funcs.append({'name': r['name'], 'sha256': r['sha'], 'obligations': len(r['obligations']), 'kind': r['kind']})
+            obs.extend(Ob(d) for d in r['obligations'])
+    info = dict(info, assumed_contracts=assumed)
     ground = [g for g in K.ground_checks(v.db) if info.get('ground') is None or g[0] in info['ground'] or True]
     syntactic = []
     for fn in info.get('syntactic', []):
         syntactic.extend(fn(v.db))
-    # ---- 2. discharge ---------------------------------------------------------------------------
-    if tier == 'quick':
-        solve_all(v.obligations, z3_timeout_ms=10000, cvc5_timeout_ms=20000, both=False)
-    else:
-        solve_all(v.obligations, z3_timeout_ms=60000, cvc5_timeout_ms=60000, both=True)
-    obs = v.obligations
+    # ---- 2. discharged inside the workers -----------------------------------------------------------
     proved = [o for o in obs if o.verdict == 'proved']
     refuted = [o for o in obs if o.verdict == 'refuted']
     unknown = [o for o in obs if o.verdict == 'unknown']
@@ -162,6 +203,8 @@ def run_check(prop, args, seed, t_start):
     if args.dump:
         for o in obs:
             print('%-8s %-6s %6.2fs %s' % (o.verdict, o.backend, o.time, o.oid))
+        for r in funcs:
+            print('contract %-70s %5d obligations' % (r['name'], r['obligations']))
 
     # ---- 3. counterexamples: replay on the real code ----------------------------------------------
     violations = []        # dicts: obligation, replay path, reproduced
@@ -213,7 +256,7 @@ def run_check(prop, args, seed, t_start):
                'backend': o.backend, 'model': o.model, 'sha256': getattr(o, 'sha', ''),
                'reproduced': bool(rep.get('reproduced')), 'concrete_input': rep.get('input'),
                'observed': rep.get('observed'), 'expected': rep.get('expected'), 'replay_detail': rep.get('detail'),
-               'smt2': o.smt2() if len(o.smt2()) < 200000 else '(omitted: too large)',
+               'smt2': o.smt2() if len(o.smt2()) < 400000 else '(omitted: too large)',
                'replay_cmd': './check %s --replay replays/%s/%s.json' % (prop, prop, safe_name(b))}
         if o.verdict == 'refuted' or rep.get('reproduced'):
             violations.append(rec)
@@ -311,7 +354,7 @@ def write_evidence(prop, tier, seed, info, funcs, obs, ground, syntactic, unsupp
     samples = []
     for o in obs[:400]:
         if o.kind in ('post', 'raises', 'lemma') and len(samples) < 6:
-            samples.append({'id': o.oid, 'kind': o.kind, 'verdict': o.verdict, 'formula': (o.note or str(o.goal))[:300]})
+            samples.append({'id': o.oid, 'kind': o.kind, 'verdict': o.verdict, 'formula': o.goal})
     cover = [o for o in obs if o.kind == 'cover']
     trusted = list(info.get('trusted_base', []))
     coverage = {
@@ -328,6 +371,7 @@ def write_evidence(prop, tier, seed, info, funcs, obs, ground, syntactic, unsupp
         'vacuity': {'cover_obligations': len(cover), 'cover_satisfiable': sum(1 for o in cover if o.verdict == 'proved')},
         'ground_obligations': [{'id': g[0], 'ok': g[1], 'what': g[2]} for g in ground + syntactic],
         'unsupported': unsupported,
+        'assumed_contracts': info.get('assumed_contracts', []),
         'samples': samples,
         'explanation': info.get('explanation', ''),
     }
@@ -342,7 +386,9 @@ def write_evidence(prop, tier, seed, info, funcs, obs, ground, syntactic, unsupp
     ev = {
         'property_id': prop, 'tier': tier, 'seed': seed, 'level': level,
         'coverage': coverage,
-        'assumptions': list(info.get('assumptions', [])) + ['unsupported (not verified): %s' % u['contract'] for u in unsupported],
+        'assumptions': list(info.get('assumptions', [])) + ['unsupported (not verified): %s' % u['contract'] for u in unsupported] +
+                       ['assumed interface / library contract (used at calls, not verified against a body): %s' % a
+                        for a in info.get('assumed_contracts', [])],
         'wall_s': round(time.time() - t_start, 2),
         'violations': len(violations),
     }
